@@ -243,6 +243,8 @@ fn fast_eq_check(a: &LuaType, b: &LuaType) -> bool {
 thread_local! {
     /// nesting depth of generic alias expansion on this thread, see `instantiate_generic_alias_origin`
     static ALIAS_EXPANSION_DEPTH: std::cell::Cell<usize> = const { std::cell::Cell::new(0) };
+    /// expansions left for the outermost expansion in progress on this thread
+    static ALIAS_EXPANSION_FUEL: std::cell::Cell<usize> = const { std::cell::Cell::new(0) };
 }
 
 fn instantiate_generic_alias_origin(db: &DbIndex, generic: &LuaGenericType) -> Option<LuaType> {
@@ -250,10 +252,22 @@ fn instantiate_generic_alias_origin(db: &DbIndex, generic: &LuaGenericType) -> O
     // expands into itself: expanding its conditional checks the alias again, and so on.
     // Stop expanding at a fixed depth instead of overflowing the stack.
     const MAX_ALIAS_EXPANSION_DEPTH: usize = 32;
+    // The depth bound alone leaves room for exponential work when every level expands the alias more
+    // than once (`---@alias A<T> A<"x"> extends ("x" | "y") and 1 or 2`): the outermost expansion
+    // also gets a budget for the total number of expansions below it.
+    const MAX_ALIAS_EXPANSIONS: usize = 1024;
     let depth = ALIAS_EXPANSION_DEPTH.with(|d| d.get());
     if depth >= MAX_ALIAS_EXPANSION_DEPTH {
         return None;
     }
+    if depth == 0 {
+        ALIAS_EXPANSION_FUEL.with(|f| f.set(MAX_ALIAS_EXPANSIONS));
+    }
+    let fuel = ALIAS_EXPANSION_FUEL.with(|f| f.get());
+    if fuel == 0 {
+        return None;
+    }
+    ALIAS_EXPANSION_FUEL.with(|f| f.set(fuel - 1));
 
     let base_id = generic.get_base_type_id();
     let decl = db.get_type_index().get_type_decl(&base_id)?;
